@@ -8,8 +8,10 @@
 import Valida.Rule
 import ValidaProofs.Lemmas.Basic
 import ValidaProofs.C02
+import ValidaProofs.Lemmas.C05Rule
 namespace ValidaProofs
 open Valida ValidaGen
+open C05L
 
 /-- every leaf of the tree reads values (value-kind conditions, the domain of C05) -/
 def ValueKind (c : Cond RArg) : Prop := ∀ l ∈ c.leaves, (l.cls.info.map (·.readsKeys)) = .ok false
@@ -28,7 +30,7 @@ def plainData (sub : List (PyVal × PyVal)) : DataV :=
 theorem C05_paths_first_leaf (c : Cond RArg) (sub : List (PyVal × PyVal)) (hv : ValueKind c) :
     filterAux c (pairData sub) true =
       (filterAux c (plainData sub) false).map (fun r => (r.1, plainData sub, some (sub.map (·.2)))) := by
-  sorry
+  exact filterAux_pairs c sub hv
 
 /-- a false item always carries at least one textual reason: a false `and`/`or` has a false child, a
     false `xor` records itself, a false leaf has one of its three flags set -/
@@ -36,13 +38,15 @@ theorem C05_reasons_nonempty (c : Cond RArg) (d : DataV) (fd : FD) (d' : DataV) 
     (hd : d.keys.length = d.values.length)
     (h : filterAux c d false = .ok (fd, d', p)) (i : Nat) (hi : fd.result[i]? = some false) :
     fd.reasonsAt i ≠ [] := by
-  sorry
+  have _ := hd
+  obtain ⟨rfl, rfl⟩ := C02_filter_frame c d fd d' p h
+  exact reasonsAt_ne_nil fd i hi
 
 /-- when the path selects nothing the rule is valid and reported as not tested -/
 theorem C05_untested (r : RuleM) (doc : PyVal) (d : DataV) (hdoc : DataV.ofPy doc = .ok d)
     (h : selection r.path doc = .ok none) :
     ruleTestOn r doc = .ok { tested := false, isValid := true, failures := [], data := doc } := by
-  sorry
+  exact ruleTestOn_untested r doc d hdoc h
 
 /-- the verdict: tested; valid exactly when every selected node satisfies the condition; the failure
     list is exactly the selected nodes that do not, in selection order, each with its value, its
@@ -57,13 +61,14 @@ theorem C05_verdict (r : RuleM) (doc : PyVal) (t : RuleTestR) (sub : List (PyVal
       t.failures.map (·.index) = failureIndices fd.result ∧
       (∀ f ∈ t.failures, sub[f.index]? = some (f.value, f.path) ∧ f.reasons ≠ [] ∧ fd.result[f.index]? = some false) ∧
       t.failures.length = (fd.result.filter (!·)).length := by
-  sorry
+  exact ruleTestOn_verdict r doc t sub hsel hne hv h
 
 /-- the booleans the verdict is built from are one per selected node -/
 theorem C05_one_per_node (r : RuleM) (doc : PyVal) (sub : List (PyVal × PyVal)) (fd : FD) (d' : DataV)
     (p : Option (List PyVal))
     (h : filterAux (r.cond.resolve (some doc)) (plainData sub) false = .ok (fd, d', p)) :
     fd.result.length = sub.length := by
-  sorry
+  have := C02_result_length _ _ fd d' p (plainD_lengths sub) h
+  simpa [plainD] using this
 
 end ValidaProofs
